@@ -18,6 +18,10 @@ pub(super) fn read_message(stream: &mut TcpStream) -> io::Result<(u8, Bytes)> {
     let message_size = u16::from_le_bytes([header[1], header[2]]);
 
     let mut message = vec![0; header.len() + message_size as usize];
+    if stream.peek(&mut message)? < message.len() {
+        // Wait for the full message, reading a part of it would desynchronize the stream.
+        return Err(io::ErrorKind::WouldBlock.into());
+    }
     stream.read_exact(&mut message)?;
 
     let mut message = Bytes::from(message);
